@@ -48,6 +48,12 @@ func genC06(r *kernel.Rand, tier string) *kernel.Scenario {
 			c["drop_pm"], c["dup_pm"] = int64(r.Range(10, 80)), int64(r.Range(10, 80))
 		}
 		c["ctx_ms"] = int64([]int{5, 50, 2000}[r.Intn(3)])
+		if r.Bool(0.4) {
+			// handlers answer with a context that runs out around the time their
+			// answer is on the wire (with a late return of Publish: after it was delivered)
+			c["answer_ctx_max_us"] = int64([]int{500, 3000, 8000}[r.Intn(3)])
+			c["async_bus"], c["bus_ack_max_us"] = 0, 3000
+		}
 	}
 	c["yield_pct"] = int64([]int{0, 30, 100}[r.Intn(3)])
 	c["long_yields"] = int64(r.Intn(2))
@@ -323,6 +329,37 @@ func checkC06(p *pair, sc *kernel.Scenario) {
 				return
 			}
 			s.Count("probe.restart_run_success_judged", 1)
+		}
+	}
+	if mode != 3 && !strict && sc.Cfg("dup_pm", 0) == 0 {
+		// The success clause holds whatever timed out elsewhere: an Update that
+		// returned nil had the peer's signature, the peer sends that signature
+		// only with the state staged and enables it right afterwards - also when
+		// its own context has run out meanwhile. Lost and late messages do not
+		// change that. A duplicating network does: the sender's Publish can time
+		// out (the responder then discards) while a copy still arrives - the
+		// two-generals limit, outside the clause; so does a crash (mode 3).
+		for _, o := range ops {
+			if o.op != "pay" || o.class != "ok" {
+				continue
+			}
+			has := func(l []world.EnabledRec) bool {
+				for i := range l {
+					if bytes.Equal(l[i].Enc, o.proposed) && l[i].SigsOK {
+						return true
+					}
+				}
+				return false
+			}
+			if !has(p.n[o.side].Rec.EnabledOf(o.ch)) {
+				s.Fail("C06.success-not-enabled@proposer", "Update of %s v%d returned nil but the proposer did not enable the proposed state with all signatures (relaxed run)", s.ChanName(o.ch), o.version)
+				return
+			}
+			if !has(p.n[1-o.side].Rec.EnabledOf(o.ch)) {
+				s.Fail("C06.success-not-enabled@peer", "Update of %s v%d returned nil but the peer never enabled the proposed state (relaxed run)", s.ChanName(o.ch), o.version)
+				return
+			}
+			s.Count("probe.relaxed_run_success_judged", 1)
 		}
 	}
 	if !strict {
